@@ -14,6 +14,7 @@ import (
 	"verif/internal/fmtcfg"
 	"verif/internal/refjson"
 	"verif/internal/views"
+	"verif/props/c01"
 )
 
 var opNames = []string{"Format", "AppendFormat", "AppendFormat-overlap", "Compact", "Indent", "Canonicalize"}
@@ -334,6 +335,7 @@ func Run(r *evid.Run) {
 	product(r)
 	reorderStress(r)
 	wideObjects(r)
+	deepTexts(r)
 }
 
 // product: the full 2^13 option product on the corpus (Format only; the other entry points
@@ -447,6 +449,34 @@ func reorderStress(r *evid.Run) {
 
 // wideObjects: duplicate names around the 64-name / 1 KiB switch of the name set must make every
 // strict operation fail (value untouched) and every permissive one succeed.
+// deepTexts: texts nested exactly d deep for d around the limit, in the shapes of C01's depth family, through
+// every operation: success iff valid (the limit included), output valid, same value, fixed point.
+func deepTexts(r *evid.Run) {
+	names, texts := c01.DeepTexts(r.Tier)
+	// no indentation here: indenting a text nested d deep writes O(d^2) bytes (100 MB at d = 10000) by definition
+	cfgs := []cfgReal{mk(fmtcfg.Cfg{}), mk(fmtcfg.Cfg{On: fmtcfg.SpaceComma | fmtcfg.SpaceColon}), mk(fmtcfg.Cfg{On: fmtcfg.Reorder | fmtcfg.AllowDup}), mk(fmtcfg.Cfg{On: fmtcfg.AllowUTF8 | fmtcfg.CanonInts})}
+	enum.Parallel(r, len(texts), func(w *enum.Worker) func(int) {
+		c := &checker{out: map[string]int64{}}
+		w.Describe = func() any { return c.cur }
+		w.Done = func() { r.Outcomes(c.out) }
+		return func(u int) {
+			doc := texts[u]
+			c.prep(doc)
+			for ci, cf := range cfgs {
+				for op := range opNames {
+					if opNames[op] == "Indent" || (ci > 0 && op != 0 && op != 5) {
+						continue
+					}
+					c.check(r, doc, op, cf.c, cf.o)
+					r.Nontrivial.Add(1)
+				}
+			}
+			w.Beat()
+		}
+	})
+	r.Bound("depth: %d texts (%s ... ) nested exactly d deep for d around 10000 x Format / AppendFormat (also with overlapping destination) / Compact / Canonicalize under default options and Format/Canonicalize under 3 more option sets (Indent is left out: its output is quadratic in the depth)", len(texts), names[0])
+}
+
 func wideObjects(r *evid.Run) {
 	ns := []int{64, 65, 66, 67, 68}
 	if r.Tier == "thorough" {
